@@ -1607,6 +1607,14 @@ class MEDDLY::forest {
         /// Mark all registered dd_edges.
         void markAllRoots();
 
+#ifdef MEDDLY_VERIF
+        /// Verification hook: list every registered root edge.
+        void verifVisitRoots(std::vector <const dd_edge*> &v) const;
+
+        /// Verification hook: the recorded cache count of a node.
+        unsigned long verifCacheCount(node_handle p) const;
+#endif
+
     // ------------------------------------------------------------
     private: // Private methods for root edge registry
     // ------------------------------------------------------------
